@@ -133,4 +133,3 @@ func genHistory(t *sim.Tape, n int, maxFlows int) []writeout {
 	}
 	return out
 }
-
